@@ -418,5 +418,15 @@ func VerifyEvidence(doc *document.Document, evidence *document.ActiveAuthEvidenc
 		return nil, fmt.Errorf("[VerifyEvidence] DG15 is nil")
 	}
 
-	return ValidateActiveAuthSignature(doc.Mf.Lds1.Dg15, evidence.Signature, evidence.Nonce)
+	result, err := ValidateActiveAuthSignature(doc.Mf.Lds1.Dg15, evidence.Signature, evidence.Nonce)
+	if err != nil {
+		return result, err
+	}
+
+	// the recorded algorithm must be the algorithm of the DG15 key the signature was verified with
+	if result == nil || result.Evidence == nil || !result.Evidence.Algorithm.Equal(evidence.Algorithm) {
+		return &document.ActiveAuthResult{Success: false, Evidence: evidence}, fmt.Errorf("[VerifyEvidence] evidence algorithm does not match the DG15 public key algorithm")
+	}
+
+	return result, nil
 }
